@@ -1580,4 +1580,54 @@ theorem fwFrom_input (S : Sys ℝ ns nc) (P : Prob ℝ ns nc) (xbar : Nat → Ve
 
 end feedback
 
+/-! ## Part 13 — the gain matrices depend only on `(A_t, B_t, Q_t)`: not on `p_t`, `c1_t`, the nominal or the start -/
+
+section gainsABQ
+variable {ns nc : Nat}
+variable (sol : Solver ℝ ns nc) (A : Nat → Mat ℝ ns ns) (B : Nat → Mat ℝ ns nc) (dt : Nat)
+
+theorem stageQ_fst_ABQ (c c' : Nat → Vec ℝ ns) (P P' : Prob ℝ ns nc) (hQ : P.Q = P'.Q)
+    (xbar xbar' : Nat → Vec ℝ ns) (ubar ubar' : Nat → Vec ℝ nc) (t : Nat) (nxt nxt' : Option (Val ℝ ns))
+    (h : nxt.map (·.V) = nxt'.map (·.V)) :
+    (stageQ (Sys.linear A B c) P dt xbar ubar t nxt).1 = (stageQ (Sys.linear A B c') P' dt xbar' ubar' t nxt').1 := by
+  cases nxt with
+  | none =>
+    cases nxt' with
+    | none => simp only [stageQ, hQ]
+    | some w' => simp at h
+  | some w =>
+    cases nxt' with
+    | none => simp at h
+    | some w' =>
+      have hV : w.V = w'.V := by simpa using h
+      simp only [stageQ, Sys.linear, hV, hQ]
+
+theorem stage_KV_ABQ (c c' : Nat → Vec ℝ ns) (P P' : Prob ℝ ns nc) (hQ : P.Q = P'.Q)
+    (xbar xbar' : Nat → Vec ℝ ns) (ubar ubar' : Nat → Vec ℝ nc) (t : Nat) (nxt nxt' : Option (Val ℝ ns))
+    (h : nxt.map (·.V) = nxt'.map (·.V)) :
+    (stage sol (Sys.linear A B c) P dt xbar ubar t nxt).1.K = (stage sol (Sys.linear A B c') P' dt xbar' ubar' t nxt').1.K ∧
+    (stage sol (Sys.linear A B c) P dt xbar ubar t nxt).1.Quu = (stage sol (Sys.linear A B c') P' dt xbar' ubar' t nxt').1.Quu ∧
+    (stage sol (Sys.linear A B c) P dt xbar ubar t nxt).1.Qux = (stage sol (Sys.linear A B c') P' dt xbar' ubar' t nxt').1.Qux ∧
+    (stage sol (Sys.linear A B c) P dt xbar ubar t nxt).2.V = (stage sol (Sys.linear A B c') P' dt xbar' ubar' t nxt').2.V := by
+  have hq := stageQ_fst_ABQ A B dt c c' P P' hQ xbar xbar' ubar ubar' t nxt nxt' h
+  simp only [stage, hq, and_self]
+
+theorem bwFrom_KV_ABQ (c c' : Nat → Vec ℝ ns) (P P' : Prob ℝ ns nc) (hQ : P.Q = P'.Q)
+    (xbar xbar' : Nat → Vec ℝ ns) (ubar ubar' : Nat → Vec ℝ nc) (n : Nat) : ∀ t,
+    (bwFrom sol (Sys.linear A B c) P dt xbar ubar t n).1.map (·.V) = (bwFrom sol (Sys.linear A B c') P' dt xbar' ubar' t n).1.map (·.V) ∧
+    (bwFrom sol (Sys.linear A B c) P dt xbar ubar t n).2.map (fun g => (g.K, g.Quu, g.Qux))
+      = (bwFrom sol (Sys.linear A B c') P' dt xbar' ubar' t n).2.map (fun g => (g.K, g.Quu, g.Qux)) := by
+  induction n with
+  | zero => intro t; exact ⟨rfl, rfl⟩
+  | succ n ih =>
+    intro t
+    obtain ⟨hV, hG⟩ := ih (t+1)
+    obtain ⟨h1, h2, h3, h4⟩ := stage_KV_ABQ sol A B dt c c' P P' hQ xbar xbar' ubar ubar' t _ _ hV
+    rw [bwFrom_succ, bwFrom_succ]
+    refine ⟨?_, ?_⟩
+    · simp only [Option.map_some]; rw [h4]
+    · simp only [List.map_cons]; rw [h1, h2, h3, hG]
+
+end gainsABQ
+
 end PP.Lqr
